@@ -129,7 +129,8 @@ type c16Family struct {
 	name    string
 	univ    []string
 	stems   []int
-	maxSize int // 0 = all subsets
+	maxSize int  // 0 = all subsets
+	c17Only bool // large sets: ShardByPrefix only (C16's all-ranges sweep would be quadratic)
 }
 
 // c16Whole as maxSize: the universe itself is the only key set of the family.
@@ -150,7 +151,7 @@ func (f c16Family) hasSize(k int) bool {
 
 func c16Families(c *mc.Ctx) []c16Family {
 	sortS := func(x []string) []string { sort.Strings(x); return x }
-	f := []c16Family{{"len≤2 over {00,'a',ff}", sortS(gen.Strings([]byte{0, 'a', 0xff}, 2)), []int{0, 7, 8, 9, 16, 17, 24, 31, 32, 33, 64, 65}, 0}}
+	f := []c16Family{{"len≤2 over {00,'a',ff}", sortS(gen.Strings([]byte{0, 'a', 0xff}, 2)), []int{0, 7, 8, 9, 16, 17, 24, 31, 32, 33, 64, 65}, 0, false}}
 	// keys whose stems differ in their first byte (by ≥128) and in the last byte of the first 8-byte chunk
 	var mixed []string
 	for v := 0; v < c09StemVariants; v++ {
@@ -158,29 +159,29 @@ func c16Families(c *mc.Ctx) []c16Family {
 			mixed = append(mixed, c09StemV(9, v)+t)
 		}
 	}
-	f = append(f, c16Family{"4 stem variants × {'',00,'a'}", sortS(mixed), []int{0}, 0})
+	f = append(f, c16Family{"4 stem variants × {'',00,'a'}", sortS(mixed), []int{0}, 0, false})
 	// every stem length 0..80 (so the first difference falls on every byte position up to 80)
 	var allStems []int
 	for n := 0; n <= 80; n++ {
 		allStems = append(allStems, n)
 	}
-	f = append(f, c16Family{"5 short keys behind every stem length 0..80", sortS([]string{"", "\x00", "a", "a\xff", "b"}), allStems, 0})
+	f = append(f, c16Family{"5 short keys behind every stem length 0..80", sortS([]string{"", "\x00", "a", "a\xff", "b"}), allStems, 0, false})
 	// byte classes: UTF-8 continuation bytes (0x80..0xbf), a lead byte, 0x7f/0x80 neighbours
 	f = append(f,
-		c16Family{"len≤2 over {'a',80,c3}", sortS(gen.Strings([]byte{'a', 0x80, 0xc3}, 2)), []int{0, 8}, 0},
-		c16Family{"len≤2 over {7f,80,bf}", sortS(gen.Strings([]byte{0x7f, 0x80, 0xbf}, 2)), []int{0}, 0})
+		c16Family{"len≤2 over {'a',80,c3}", sortS(gen.Strings([]byte{'a', 0x80, 0xc3}, 2)), []int{0, 8}, 0, false},
+		c16Family{"len≤2 over {7f,80,bf}", sortS(gen.Strings([]byte{0x7f, 0x80, 0xbf}, 2)), []int{0}, 0, false})
 	// large key sets taken whole (deep recursion of the sharding, long ranges)
 	f = append(f,
-		c16Family{"all 31 strings of len≤4 over {a,b}", sortS(gen.Strings([]byte{'a', 'b'}, 4)), []int{0, 8}, c16Whole},
-		c16Family{"all 63 strings of len≤5 over {00,'a'}", sortS(gen.Strings([]byte{0, 'a'}, 5)), []int{0, 9}, c16Whole},
-		c16Family{"all 121 strings of len≤4 over {00,'a',ff}", sortS(gen.Strings([]byte{0, 'a', 0xff}, 4)), []int{0, 8}, c16Whole},
-		c16Family{"all 341 strings of len≤4 over {00,01,'a',ff}", sortS(gen.Strings([]byte{0, 1, 'a', 0xff}, 4)), []int{0}, c16Whole})
-	f = append(f, c16Family{"len≤3 over {00,'a'}", sortS(gen.Strings([]byte{0, 'a'}, 3)), []int{0, 8}, 0},
-		c16Family{"len≤3 over {00,'a',ff}, size≤4", sortS(gen.Strings([]byte{0, 'a', 0xff}, 3)), []int{0, 8}, 4})
+		c16Family{"all 31 strings of len≤4 over {a,b}", sortS(gen.Strings([]byte{'a', 'b'}, 4)), []int{0, 8}, c16Whole, false},
+		c16Family{"all 63 strings of len≤5 over {00,'a'}", sortS(gen.Strings([]byte{0, 'a'}, 5)), []int{0, 9}, c16Whole, false},
+		c16Family{"all 121 strings of len≤4 over {00,'a',ff}", sortS(gen.Strings([]byte{0, 'a', 0xff}, 4)), []int{0, 8}, c16Whole, false},
+		c16Family{"all 341 strings of len≤4 over {00,01,'a',ff}", sortS(gen.Strings([]byte{0, 1, 'a', 0xff}, 4)), []int{0}, c16Whole, false})
+	f = append(f, c16Family{"len≤3 over {00,'a'}", sortS(gen.Strings([]byte{0, 'a'}, 3)), []int{0, 8}, 0, false},
+		c16Family{"len≤3 over {00,'a',ff}, size≤4", sortS(gen.Strings([]byte{0, 'a', 0xff}, 3)), []int{0, 8}, 4, false})
 	if c.Thorough {
 		f = append(f,
-			c16Family{"len≤2 over {00,01,'a',ff}", sortS(gen.Strings([]byte{0, 1, 'a', 0xff}, 2)), []int{0, 8}, 0},
-			c16Family{"len≤3 over {00,'a',ff}, size 5..6", sortS(gen.Strings([]byte{0, 'a', 0xff}, 3)), []int{0, 8}, -6})
+			c16Family{"len≤2 over {00,01,'a',ff}", sortS(gen.Strings([]byte{0, 1, 'a', 0xff}, 2)), []int{0, 8}, 0, false},
+			c16Family{"len≤3 over {00,'a',ff}, size 5..6", sortS(gen.Strings([]byte{0, 'a', 0xff}, 3)), []int{0, 8}, -6, false})
 	}
 	// full byte fan-out: a key, the key followed by EVERY byte value (257-way split), and a few
 	// deeper keys so that some sub-range has to split again
@@ -197,8 +198,17 @@ func c16Families(c *mc.Ctx) []c16Family {
 	}
 	single = append(single, "a\x00", "aa", "ab")
 	f = append(f,
-		c16Family{"full fan-out: p, p+every byte, deeper keys (264 keys)", sortS(fan), []int{0, 7}, c16Whole},
-		c16Family{"empty key, every single byte, 3 deeper keys (260 keys)", sortS(single), []int{0}, c16Whole})
+		c16Family{"full fan-out: p, p+every byte, deeper keys (264 keys)", sortS(fan), []int{0, 7}, c16Whole, false},
+		c16Family{"empty key, every single byte, 3 deeper keys (260 keys)", sortS(single), []int{0}, c16Whole, false})
+	// key sets of a thousand and more keys (C17 only)
+	ten := []byte{0x00, 0x01, '0', 'A', 'a', 'z', 0x7f, 0x80, 0xc3, 0xff}
+	var sixtyfour []byte
+	for b := 0; b < 256; b += 4 {
+		sixtyfour = append(sixtyfour, byte(b))
+	}
+	f = append(f,
+		c16Family{name: "all 1111 strings of len≤3 over 10 bytes", univ: sortS(gen.Strings(ten, 3)), stems: []int{0, 8}, maxSize: c16Whole, c17Only: true},
+		c16Family{name: "all 4161 strings of len≤2 over 64 bytes", univ: sortS(gen.Strings(sixtyfour, 2)), stems: []int{0}, maxSize: c16Whole, c17Only: true})
 	return f
 }
 
@@ -325,7 +335,12 @@ func c16Shards(fams []c16Family) []c16Shard {
 }
 
 func c16Run(c *mc.Ctx) {
-	fams := c16Families(c)
+	var fams []c16Family
+	for _, f := range c16Families(c) {
+		if !f.c17Only {
+			fams = append(fams, f)
+		}
+	}
 	shards := c16Shards(fams)
 	c.NoExpectNote("the number of (set, s, e, m) cases is Σ over subsets of 1 + 6·C(size,2)-ish terms; it is fed from a separate counting pass over subset sizes")
 	// counting pass: per subset size k: 1 FirstDiffBits + 6·(number of (s,e) with e-s≥2)
